@@ -77,8 +77,50 @@ fn verdicts(cv: &CV, n: usize) -> Option<Vec<bool>> {
     fs.iter().map(|(_, f)| match f { CV::Tuple(None, inner) if inner.len() == 1 => Some(!inner[0].1.is_nil()), _ => None }).collect()
 }
 
+/// type tests on process and function values (the generated aliases have none): (source, expected result if known)
+fn proc_fn_templates(rng: &mut Rng) -> Vec<(String, Option<&'static str>)> {
+    let k = rng.range(0, 9);
+    vec![
+        (format!("f = #(@'int | 'int) {{ =(@'int) => Yes | No }}, p = @{{ !'int }}, [&p f, {k} f]"), Some("[Yes, No]")),
+        (format!("f = #(@'bin | @'int | 'int) {{ | =(@'int) => PI | =(@'bin) => PB | N }}, p = @{{ !'int }}, q = @{{ !'bin }}, [&p f, &q f, {k} f]"), Some("[PI, PB, N]")),
+        (format!("'pt = @'int\nf = #('pt | 'bin) {{ | =('pt)w => Proc | Other }}, p = @{{ !'int {{ =0 => 1 | 2 }} }}, [&p f, 0x0{k} f]"), Some("[Proc, Other]")),
+        (format!("g = #'int {{ [~, {k}] __integer_add__ }}, h = #((#'int -> 'int) | 'int) {{ | ='int => NotFn | Fn }}, [&g h, 3 h]"), Some("[Fn, NotFn]")),
+        (format!("r = #{{ !'int }}, f = #((#[] -> 'int) | 'bin) {{ | ='bin => B | F }}, [&r f, 0x0{k} f]"), None),
+    ]
+}
+
+fn check_proc_fn_templates(rep: &Report, rounds: usize) {
+    let b = qv::builtins();
+    let items = corpus_items();
+    crate::pool::run_indexed(rounds, 64, |i| {
+        let mut rng = Rng::derive(rep.seed, "C08-proc", 0, i as u64);
+        for (src, expected) in proc_fn_templates(&mut rng) {
+            let Ok(Ok(cp)) = std::panic::catch_unwind(|| qv::compile(&src, &b)) else { rep.count("process_template_not_accepted(skipped)", 1); continue; };
+            let run = |bc: quiver_core::bytecode::Bytecode, others: usize, rng: &mut Rng| -> Option<String> {
+                let mut sim = Sim::new(2, &b, false, None);
+                sim.set_logging(false);
+                for _ in 0..others { let it = &items[rng.below(items.len())]; if let Ok(Ok(c2)) = std::panic::catch_unwind(|| qv::compile(&it.src, &b)) { let _ = sim.env.start_process(Some(c2.program.to_bytecode(Some(c2.entry)))); } }
+                let st = start_program(&mut sim, bc).ok()?;
+                let mut r2 = Rng::new(rng.next());
+                let _ = sim.run(Strategy::Eager, QuantumPolicy::Fixed(1000), &mut r2, 200_000, &|| false, &mut |_s| false);
+                match poll_root(&mut sim, &st).map(|r| canon_root(&sim, &r, st.pid)) { Some(Fate::Done(v)) => Some(v.show()), _ => None }
+            };
+            let plain = cp.program.to_bytecode(Some(cp.entry)); let shaken = cp.program.to_bytecode_optimized(cp.entry);
+            let Some(base) = run(plain.clone(), 0, &mut rng) else { rep.count("process_template_without_result", 1); continue; };
+            let viol = |sig: &str, what: String| rep.violation(Violation { signature: format!("C08:{}", sig), what: format!("{}\n--- program ---\n{}", what, src), witness: json!({"source": src}) });
+            rep.eval(1); rep.count("process_and_function_type_templates", 1);
+            if let Some(e) = expected { if base != e { viol("process-or-function-type-test-wrong", format!("direct run gave {} where {} is expected", base, e)); continue; } }
+            for (name, bc, others) in [("tree-shaken", shaken.clone(), 0usize), ("merged-after-other-programs", plain.clone(), 1 + rng.below(4)), ("merged-after-other-programs", shaken.clone(), 1 + rng.below(4))] {
+                rep.eval(1); rep.count(&format!("process_template_config={}", name), 1);
+                match run(bc, others, &mut rng) { Some(v) if v == base => {} Some(v) => viol(&format!("process-or-function-type-test-differs:{}", name), format!("{} gave {} but the direct run gave {}", name, v, base)), None => rep.count("process_template_config_without_result", 1) }
+            }
+        }
+    });
+}
+
 pub fn check(rep: &Report) {
     let quick = rep.quick();
+    check_proc_fn_templates(rep, if quick { 120 } else { 3000 });
     let n = if quick { 6000 } else { 120_000 };
     let b = qv::builtins();
     let items = corpus_items();
